@@ -9,6 +9,9 @@ THEOREMS = {"Artap.Props.C02": [
     "C02_fnds_order_independent", "C02_rank_cost_only", "C02_rank_unique", "C02_dominators_spec",
     "C02_fnds_rank_generic", "C02_float_fnds_rank"]}
 AXIOMS_OK = FLOAT_AXIOMS
+# second tie to the code (tools/py2coq.py + coq/theories/GenProofs): the source of ParetoDominance.compare is translated on every run and proved equal to Model/Dominance.v pareto_compare
+from harness.core import translated_specs
+TRANSLATED = translated_specs("DominanceGen")
 TRUSTED = [
     "Coq 8.16.1 kernel, vm_compute for model evaluation (no native_compute)",
     "FloatAxioms.ltb_spec / eqb_spec and the primitive float operations (standard library) for the float order instance",
